@@ -7,16 +7,7 @@
 #define VERIF_COMMON_H
 
 #ifdef VERIF_NATIVE
-/* native replay: contracts compile away, inputs come from -include replay_inputs.h (RP_<name>) */
-#include <stdio.h>
-#include <stdlib.h>
-#define __CPROVER_requires(x)
-#define __CPROVER_ensures(x)
-#define __CPROVER_assigns(...)
-#define __CPROVER_assume(x) do { if (!(x)) { printf("REPLAY-ASSUME-VIOLATED %s\n", #x); exit(3); } } while (0)
-#define __CPROVER_assert(x, msg) do { if (!(x)) { printf("REPLAY-OBLIGATION-FAILED %s\n", msg); verif_failed = 1; } } while (0)
-static int verif_failed;
-#define VERIF_CANARY() do { printf(verif_failed ? "REPLAY-RESULT failed\n" : "REPLAY-RESULT passed\n"); } while (0)
+#include "verif_native.h"
 #else
 #define VERIF_CANARY() __CPROVER_assert(0, "CANARY reachable (must fail: the harness is not vacuous)")
 #endif
